@@ -38,13 +38,25 @@ pub enum Step {
     /// fetch_update / update_fetch with closure: "append" (value+"+"), "delete"
     FetchUpdate(K, K),
     UpdateFetch(K, K),
+    /// the same step on the second keyspace `y` (every other step addresses keyspace `x`)
+    Y(Box<Step>),
 }
 
 impl Step {
+    #[allow(dead_code)]
     fn is_write(&self) -> bool {
-        matches!(self, Step::Insert(..) | Step::Remove(_) | Step::Take(_) | Step::FetchUpdate(..) | Step::UpdateFetch(..))
+        match self {
+            Step::Y(s) => s.is_write(),
+            _ => matches!(self, Step::Insert(..) | Step::Remove(_) | Step::Take(_) | Step::FetchUpdate(..) | Step::UpdateFetch(..)),
+        }
+    }
+    fn y(self) -> Step {
+        Step::Y(Box::new(self))
     }
 }
+
+/// Reference state: keyspaces x and y.
+pub type Maps = [Map; 2];
 
 fn bound(s: &str) -> Bound<&[u8]> {
     if s.is_empty() {
@@ -80,7 +92,14 @@ fn closure_apply(c: &str, v: Option<&[u8]>) -> Option<Vec<u8>> {
 }
 
 /// A step on the reference map (own writes visible); returns the rendered result.
-fn model_step(m: &mut Map, s: &Step) -> String {
+fn model_step(ms: &mut Maps, s: &Step) -> String {
+    match s {
+        Step::Y(inner) => model_step_one(&mut ms[1], inner),
+        _ => model_step_one(&mut ms[0], s),
+    }
+}
+
+fn model_step_one(m: &mut Map, s: &Step) -> String {
     let opt = |v: Option<&Vec<u8>>| v.map(|x| String::from_utf8_lossy(x).into_owned()).unwrap_or_else(|| "-".into());
     let all = |m: &Map| m.iter().map(|(k, v)| (k.clone(), v.clone())).collect::<Vec<_>>();
     match s {
@@ -116,10 +135,18 @@ fn model_step(m: &mut Map, s: &Step) -> String {
             }
             if matches!(s, Step::FetchUpdate(..)) { opt(prev.as_ref()) } else { opt(new.as_ref()) }
         }
+        Step::Y(_) => unreachable!("nested keyspace tag"),
     }
 }
 
-fn real_step(tx: &mut OptimisticWriteTx, ks: &OptimisticTxKeyspace, s: &Step) -> Result<String, String> {
+fn real_step(tx: &mut OptimisticWriteTx, kss: &[OptimisticTxKeyspace; 2], s: &Step) -> Result<String, String> {
+    match s {
+        Step::Y(inner) => real_step_one(tx, &kss[1], inner),
+        _ => real_step_one(tx, &kss[0], s),
+    }
+}
+
+fn real_step_one(tx: &mut OptimisticWriteTx, ks: &OptimisticTxKeyspace, s: &Step) -> Result<String, String> {
     let e = |x: fjall::Error| format!("{x:?}");
     let opt = |v: Option<fjall::UserValue>| v.map(|x| String::from_utf8_lossy(&x).into_owned()).unwrap_or_else(|| "-".into());
     let collect = |it: fjall::Iter| -> Result<String, String> {
@@ -170,6 +197,7 @@ fn real_step(tx: &mut OptimisticWriteTx, ks: &OptimisticTxKeyspace, s: &Step) ->
             let c = *c;
             opt(tx.update_fetch(ks, *k, move |v| closure_apply(c, v.map(|x| &**x)).map(|x| x.into())).map_err(e)?)
         }
+        Step::Y(_) => return Err("nested keyspace tag".into()),
     })
 }
 
@@ -178,6 +206,10 @@ pub enum Ev {
     Begin(usize),
     Step(usize, usize),
     Commit(usize),
+    /// explicit `rollback()`
+    Rollback(usize),
+    /// the transaction object is dropped without commit
+    Drop(usize),
     /// write + rotation of another keyspace: lets the snapshot tracker pull up its watermark and GC
     Maint,
 }
@@ -196,17 +228,23 @@ impl History {
                 Ev::Begin(t) => format!("T{t}: begin"),
                 Ev::Step(t, i) => format!("T{t}: {:?}", self.txs[*t][*i]),
                 Ev::Commit(t) => format!("T{t}: commit"),
+                Ev::Rollback(t) => format!("T{t}: rollback()"),
+                Ev::Drop(t) => format!("T{t}: drop"),
                 Ev::Maint => "maintenance: insert z.m, rotate z".to_string(),
             })
             .collect()
     }
 }
 
-fn initial_map() -> Map {
+fn initial_map() -> Maps {
     let mut m = Map::new();
     m.insert(b"a".to_vec(), b"0".to_vec());
     m.insert(b"b".to_vec(), b"0".to_vec());
-    m
+    [m.clone(), m]
+}
+
+fn show_maps(m: &Maps) -> String {
+    format!("x:{} y:{}", show_map(&m[0]), show_map(&m[1]))
 }
 
 /// Runs the history on the real database and judges serializability.
@@ -215,10 +253,12 @@ pub fn run_history(h: &History) -> Result<String, Violation> {
     let r = std::panic::catch_unwind(std::panic::AssertUnwindSafe(|| -> Result<String, Violation> {
         let e = |x: fjall::Error| Violation::new("op_error", format!("{x:?}"));
         let db = OptimisticTxDatabase::builder(&dir).worker_threads_unchecked(0).open().map_err(e)?;
-        let ks = db.keyspace("x", KeyspaceCreateOptions::default).map_err(e)?;
+        let kss = [db.keyspace("x", KeyspaceCreateOptions::default).map_err(e)?, db.keyspace("y", KeyspaceCreateOptions::default).map_err(e)?];
         let z = db.keyspace("z", KeyspaceCreateOptions::default).map_err(e)?;
-        for (k, v) in initial_map() {
-            ks.inner().insert(k, v).map_err(e)?;
+        for (i, m) in initial_map().iter().enumerate() {
+            for (k, v) in m {
+                kss[i].inner().insert(k, v).map_err(e)?;
+            }
         }
         let n = h.txs.len();
         let mut live: Vec<Option<OptimisticWriteTx>> = (0..n).map(|_| None).collect();
@@ -234,8 +274,15 @@ pub fn run_history(h: &History) -> Result<String, Violation> {
                 }
                 Ev::Step(t, i) => {
                     let tx = live[*t].as_mut().ok_or_else(|| Violation::new("harness", "step on closed tx"))?;
-                    let r = real_step(tx, &ks, &h.txs[*t][*i]).map_err(|x| Violation::new("op_error", x))?;
+                    let r = real_step(tx, &kss, &h.txs[*t][*i]).map_err(|x| Violation::new("op_error", x))?;
                     results[*t].push(r);
+                }
+                Ev::Rollback(t) => {
+                    let tx = live[*t].take().ok_or_else(|| Violation::new("harness", "rollback closed tx"))?;
+                    tx.rollback();
+                }
+                Ev::Drop(t) => {
+                    drop(live[*t].take());
                 }
                 Ev::Commit(t) => {
                     let tx = live[*t].take().ok_or_else(|| Violation::new("harness", "commit closed tx"))?;
@@ -249,7 +296,7 @@ pub fn run_history(h: &History) -> Result<String, Violation> {
             }
         }
         drop(live);
-        let final_state = scan_ks(ks.inner()).map_err(|x| Violation::new("op_error", x))?;
+        let final_state: Maps = [scan_ks(kss[0].inner()).map_err(|x| Violation::new("op_error", x))?, scan_ks(kss[1].inner()).map_err(|x| Violation::new("op_error", x))?];
         // brute-force serial orders of the committed transactions, consistent with real time
         let com: Vec<usize> = (0..n).filter(|t| committed[*t] == Some(true)).collect();
         let mut perm = com.clone();
@@ -282,6 +329,7 @@ pub fn run_history(h: &History) -> Result<String, Violation> {
                 found = true;
             }
         });
+        let _ = tried;
         if !found {
             let desc: Vec<String> = (0..n)
                 .map(|t| format!("T{t}[{}] {:?} -> {:?}", match committed[t] { Some(true) => "committed", Some(false) => "conflict", None => "open" }, h.txs[t], results[t]))
@@ -289,11 +337,11 @@ pub fn run_history(h: &History) -> Result<String, Violation> {
             let aborted_effect = com.is_empty() && final_state != initial_map();
             return Err(Violation::new(
                 if aborted_effect { "aborted_tx_has_effect" } else { "not_serializable" },
-                format!("no serial order of the committed transactions (consistent with real time) explains the observations and the final state {}: {}", show_map(&final_state), desc.join(" | ")),
+                format!("no serial order of the committed transactions (consistent with real time) explains the observations and the final state {}: {}", show_maps(&final_state), desc.join(" | ")),
             ));
         }
         let spurious = (0..n).filter(|t| committed[*t] == Some(false)).count();
-        Ok(format!("committed={:?} conflicts={spurious} final={}", com, show_map(&final_state)))
+        Ok(format!("committed={:?} conflicts={spurious} final={}", com, show_maps(&final_state)))
     }));
     let _ = std::fs::remove_dir_all(&dir);
     match r {
@@ -506,6 +554,98 @@ pub fn histories(tier: &str) -> Vec<(&'static str, Vec<History>)> {
         }
         fams.push(("3tx/with maintenance at every position", hs));
     }
+    // F4: two keyspaces: reads and writes of one transaction spread over x and y against a committer in x or y
+    {
+        let rs: Vec<Step> = if q { vec![Step::Get("a"), Step::Len] } else { vec![Step::Get("a"), Step::Len, Step::Range("=a", "!b"), Step::Contains("b")] };
+        let ws: Vec<Step> = vec![Step::Insert("a", "1"), Step::Remove("b")];
+        let on = |k: usize, s: &Step| if k == 1 { s.clone().y() } else { s.clone() };
+        let mut t1s: Vec<Vec<Step>> = vec![];
+        for ka in 0..2 {
+            for kb in 0..2 {
+                for kc in 0..2 {
+                    for r1 in &rs {
+                        for r2 in &rs {
+                            for w in &ws {
+                                t1s.push(vec![on(ka, r1), on(kb, r2), on(kc, w)]);
+                            }
+                        }
+                    }
+                }
+            }
+        }
+        let mut t2s: Vec<Vec<Step>> = vec![];
+        for kd in 0..2 {
+            for w in &ws {
+                t2s.push(vec![on(kd, w)]);
+                for ka in 0..2 {
+                    t2s.push(vec![on(ka, &rs[0]), on(kd, w)]);
+                }
+            }
+        }
+        let mut hs = vec![];
+        for a in &t1s {
+            for b in &t2s {
+                for (x, y) in [(a, b), (b, a)] {
+                    let txs = vec![x.clone(), y.clone()];
+                    for o in bc_orders(2) {
+                        hs.push(History { txs: txs.clone(), events: with_steps(&o, &txs) });
+                    }
+                }
+            }
+        }
+        fams.push(("2tx/two keyspaces", hs));
+    }
+    // F5: a sibling transaction begun at the same instant ends by rollback(), drop or commit; then every sequence of
+    // up to L filler commits / maintenance steps; then the survivor writes what it read and commits
+    {
+        const FV: [&str; 6] = ["f0", "f1", "f2", "f3", "f4", "f5"];
+        let l = if q { 4 } else { 6 };
+        let reads: Vec<Step> = if q { vec![Step::Get("a"), Step::Len] } else { vec![Step::Get("a"), Step::Len, Step::Range("=a", "!b"), Step::SizeOf("a")] };
+        // tail alphabet: 0 = filler writing a, 1 = filler writing b, 2 = maintenance
+        let mut tails: Vec<Vec<u8>> = vec![vec![]];
+        let mut frontier: Vec<Vec<u8>> = vec![vec![]];
+        for _ in 0..l {
+            let mut next = vec![];
+            for t in &frontier {
+                for e in 0..3u8 {
+                    let mut n = t.clone();
+                    n.push(e);
+                    next.push(n);
+                }
+            }
+            tails.extend(next.iter().cloned());
+            frontier = next;
+        }
+        let mut hs = vec![];
+        for closer in 0..3u8 {
+            for r in &reads {
+                for tail in &tails {
+                    // only tails in which the survivor's read is overwritten are interesting for the conflict clause,
+                    // the others are kept too (they must commit or conflict, never corrupt)
+                    let mut txs: Vec<Vec<Step>> = vec![vec![r.clone(), Step::Insert("a", "s")], if closer == 2 { vec![Step::Insert("b", "sib")] } else { vec![Step::Get("b")] }];
+                    let mut ev = vec![Ev::Begin(0), Ev::Begin(1), Ev::Step(0, 0), Ev::Step(1, 0)];
+                    ev.push(match closer {
+                        0 => Ev::Rollback(1),
+                        1 => Ev::Drop(1),
+                        _ => Ev::Commit(1),
+                    });
+                    for (i, e) in tail.iter().enumerate() {
+                        match e {
+                            2 => ev.push(Ev::Maint),
+                            k => {
+                                let t = txs.len();
+                                txs.push(vec![Step::Insert(if *k == 0 { "a" } else { "b" }, FV[i])]);
+                                ev.extend([Ev::Begin(t), Ev::Step(t, 0), Ev::Commit(t)]);
+                            }
+                        }
+                    }
+                    ev.extend([Ev::Step(0, 1), Ev::Commit(0)]);
+                    hs.push(History { txs, events: ev });
+                }
+            }
+        }
+        fams.push(("sibling ends by rollback/drop/commit, fillers + maintenance, survivor commits", hs));
+    }
     fams
 }
 
@@ -522,18 +662,20 @@ impl Body for SkewBody {
     }
     fn launch(&self, dir: &Path) -> Launched {
         let db = OptimisticTxDatabase::builder(dir).worker_threads_unchecked(0).open().expect("open");
-        let ks = db.keyspace("x", KeyspaceCreateOptions::default).expect("ks");
-        for (k, v) in initial_map() {
-            ks.inner().insert(k, v).expect("init");
+        let kss = [db.keyspace("x", KeyspaceCreateOptions::default).expect("ks"), db.keyspace("y", KeyspaceCreateOptions::default).expect("ks")];
+        for (i, m) in initial_map().iter().enumerate() {
+            for (k, v) in m {
+                kss[i].inner().insert(k, v).expect("init");
+            }
         }
         let n = self.txs.len();
         let done = Arc::new(AtomicUsize::new(0));
         let log: Arc<Mutex<Vec<(usize, u64, u64, Vec<String>, Option<bool>)>>> = Arc::new(Mutex::new(vec![]));
-        let fin: Arc<Mutex<Option<Map>>> = Arc::new(Mutex::new(None));
+        let fin: Arc<Mutex<Option<Maps>>> = Arc::new(Mutex::new(None));
         let mut handles = vec![];
         const NAMES: [&str; 3] = ["tx0", "tx1", "tx2"];
         for (t, steps) in self.txs.iter().enumerate() {
-            let (db, ks, steps, done, log) = (db.clone(), ks.clone(), steps.clone(), done.clone(), log.clone());
+            let (db, ks, steps, done, log) = (db.clone(), kss.clone(), steps.clone(), done.clone(), log.clone());
             handles.push(spawn_client(NAMES[t], move || {
                 client_point("client.call");
                 let begin = sched().now();
@@ -556,8 +698,11 @@ impl Body for SkewBody {
             let (done, fin) = (done.clone(), fin.clone());
             handles.push(spawn_client("closer", move || {
                 client_block_until(&|| done.load(Ordering::SeqCst) == n, "closer.wait_clients");
-                *fin.lock().unwrap() = scan_ks(ks.inner()).ok();
-                drop(ks);
+                *fin.lock().unwrap() = match (scan_ks(kss[0].inner()), scan_ks(kss[1].inner())) {
+                    (Ok(a), Ok(b)) => Some([a, b]),
+                    _ => None,
+                };
+                drop(kss);
                 drop(db);
             }));
         }
@@ -595,7 +740,7 @@ impl Body for SkewBody {
                 }
             });
             if !found {
-                return Err(Violation::new("not_serializable", format!("committed {:?}, final {}, log {:?}", com, show_map(&final_state), log)));
+                return Err(Violation::new("not_serializable", format!("committed {:?}, final {}, log {:?}", com, show_maps(&final_state), log)));
             }
             Ok(format!("committed={com:?}"))
         });
